@@ -10,6 +10,8 @@ except ImportError:
     pass
 
 
+import re
+
 def netstring(s):  # type: (bytes) -> bytes
     assert isinstance(s, bytes), s # no unicode here
     return b"%d:%s," % (len(s), s,)
@@ -30,7 +32,12 @@ def split_netstring(data, numstrings,
     assert numstrings >= 0
     while position < len(data):
         colon = data.index(b":", position)
-        length = int(data[position:colon])
+        length_s = data[position:colon]
+        if not re.match(br"(0|[1-9][0-9]*)\Z", length_s):
+            # int() would also accept blanks, signs, underscores and
+            # leading zeros
+            raise ValueError("netstring length %r is not a number" % (length_s,))
+        length = int(length_s)
         string = data[colon+1:colon+1+length]
         assert len(string) == length, (len(string), length)
         elements.append(string)
